@@ -262,7 +262,11 @@ func (v *LV) Build(r *Rng) any {
 			spare = r.Intn(2 * spare) // equal values, differently constructed: capacity is not part of the value
 		}
 		out := make([]any, len(v.A), len(v.A)+spare)
-		if v.R == "alias" && r == nil && len(v.A) > 0 {
+		// Only slices and maps are shared: whether two slices share their backing array can be
+		// told only from addresses, so it is not part of the value. Two POINTERS being the same
+		// pointer is visible to Go's == (uniq keeps one of them): that is part of the value,
+		// and pointer elements are therefore built separately in every build.
+		if v.R == "alias" && r == nil && len(v.A) > 0 && (v.A[0].T == "arr" || v.A[0].T == "map") && v.A[0].R == "" {
 			shared := v.A[0].Build(nil)
 			first := mustJSON(v.A[0]) // by content, so that the sharing survives a clone or a replay file
 			for i, x := range v.A {
@@ -383,7 +387,9 @@ var longMulti = strings.Repeat("日本語のテキスト ", 12)
 var keyWords = []string{"a", "b", "c", "d", "e", "f", "g", "h", "i", "j", "k", "l", "name", "title", "n",
 	"o", "p", "q", "r", "s", "t", "u", "v", "w", "x2", "y2", "z2",
 	// keys that differ from others only in case
-	"A", "B", "Name", "TITLE", "N", "nAmE"}
+	"A", "B", "Name", "TITLE", "N", "nAmE",
+	// keys named like the built-in properties
+	"size", "first", "last"}
 
 func genScalar(r *Rng) *LV {
 	v := genScalar1(r)
@@ -621,6 +627,30 @@ func GenEnv(r *Rng, mapLo, mapHi int) *Env {
 	}
 	add("m", genMap(r, 1, mapLo, mapHi))
 	add("m2", genMap(r, 0, mapLo, mapHi))
+	if r.Chance(0.06) {
+		// a big map (33..70 entries; as a Go map, a typed map or an ordered yaml.MapSlice):
+		// size thresholds for indexes, sorting strategies and pre-sized buffers lie here
+		big := &LV{T: "map", R: pick(r, []string{"", "mapslice", "mapslice", "typed"})}
+		n := r.Range(33, 70)
+		for i, ki := range r.Perm(len(keyWords)) {
+			if i >= n {
+				break
+			}
+			big.K = append(big.K, keyWords[ki])
+		}
+		for i := len(big.K); i < n; i++ {
+			big.K = append(big.K, fmt.Sprintf("k%d", i))
+		}
+		strs := r.Chance(0.5)
+		for i := range big.K {
+			if strs {
+				big.A = append(big.A, &LV{T: "str", S: pick(r, words)})
+			} else {
+				big.A = append(big.A, &LV{T: "int", I: int64(r.Range(-3, 99) + i)})
+			}
+		}
+		add("big", big)
+	}
 	add("p", genStruct(r))
 	add("q", &LV{T: "rec", S: pick(r, words), R: pick(r, []string{"a", "b"})})
 	d := &LV{T: "drop"}
